@@ -38,6 +38,9 @@ EXTRA_STANDINS = {
     "xbcast": {"props": {"C14", "C17"}, "short": "real text of the output broadcasters and the task set, every query scenario up to the bound",
                "unit_of_count": "query scenarios", "scenario_word": "scenario",
                "what": "contracts/xbcast.rs: ports/output/broadcaster.rs and util/task_set.rs, each file whole up to its test modules, cut from /repo with no rewrite rule and compiled against executable stubs of diatomic_waker, futures_task and the Sender trait (scripted repliers); every query scenario up to the bound, on one thread, compared with the first sentence of C14. LABELLED BOUNDED: not part of obligations/discharged."},
+    "xsink": {"props": {"C17"}, "short": "real text of both event sinks, every operation sequence up to the bound",
+              "unit_of_count": "operation sequences", "scenario_word": "operation sequence",
+              "what": "contracts/xsink.rs: ports/sink/event_buffer.rs and event_slot.rs (whole files) and the sink traits cut from /repo with no rewrite rule and compiled as they stand; every operation sequence up to the bound on one thread compared with a reference queue / option. LABELLED BOUNDED: not part of obligations/discharged."},
     "xpq": {"props": {"C20", "C07"}, "short": "real text of both priority queues, every operation sequence up to the bound",
             "unit_of_count": "operation sequences", "scenario_word": "operation sequence",
             "what": "contracts/xpq.rs: util/priority_queue.rs and util/indexed_priority_queue.rs, each file whole up to its test module, cut from /repo with no rewrite rule and compiled as they stand; every operation sequence up to the bound compared with a reference list. LABELLED BOUNDED: not part of obligations/discharged."},
